@@ -1,11 +1,11 @@
 (* SrcTieAngles.v — the angle normalisers and rotation -> angle extractors of EulerAngles.hpp, regenerated from the clang
-   AST of their instantiation at Scalar = double (gen/SrcFuns.v, translate/srcfuns.py), equal the model functions the C10
+   AST of their instantiation at Scalar = double (gen/SrcFunsC10.v, translate/srcfuns.py), equal the model functions the C10
    theorems are about (real instance; the normalisers' internal `double` is the same type, conversions = identity).
    The if / else-if chain with `value += M_2PI` / `value -= M_2PI` is translated to nested conditionals on the locals;
    M_2PI is read from its own initialiser `2 * M_PI` in the source. *)
 From Coq Require Import Reals ZArith Lra.
 From Romea Require Import Num NumR AnglesModel AnglesRoundtrip SrcTie.
-From Romea.gen Require Import SrcFuns.
+From Romea.gen Require Import SrcFunsC10.
 Local Open Scope R_scope.
 
 Lemma two_pi_src : IZR 2 * PI = (1 + 1) * PI.
